@@ -75,3 +75,64 @@ func LongLiterals() []struct{ Entry, Text string } {
 	}
 	return out
 }
+
+// WideDeepFamily is a wide list whose k-th element is one deep subtree: traversal and printing code that handles
+// wide lists and deep subtrees with the same work stack / buffer sees both at once.
+type WideDeepFamily struct {
+	Name   string
+	Entry  string
+	Prefix string
+	Item   string // plain element
+	Deep   string // element pattern with %s for the deep expression
+	Sep    string
+	Suffix string
+}
+
+var WideDeepFamilies = []WideDeepFamily{
+	{"in-list", "expr", "a IN (", "1", "%s", ", ", ")"},
+	{"array-literal", "expr", "[", "x", "%s", ", ", "]"},
+	{"call-args", "expr", "f(", "1", "%s", ", ", ")"},
+	{"tuple", "expr", "(", "'s'", "%s", ", ", ")"},
+	{"struct-literal", "expr", "STRUCT(", "1 AS a", "%s AS a", ", ", ")"},
+	{"case-whens", "expr", "CASE ", "WHEN a THEN 1", "WHEN %s THEN 1", " ", " END"},
+	{"select-list", "query", "SELECT ", "c", "%s", ", ", " FROM t"},
+	{"union", "query", "", "SELECT 1", "SELECT %s", " UNION ALL ", ""},
+	{"order-by", "query", "SELECT 1 FROM t ORDER BY ", "a DESC", "%s DESC", ", ", ""},
+	{"group-by", "query", "SELECT 1 FROM t GROUP BY ", "a", "%s", ", ", ""},
+	{"pipes", "query", "FROM t ", "|> WHERE a", "|> WHERE %s", " ", ""},
+	{"values-rows", "dml", "INSERT INTO t (a) VALUES ", "(1)", "(%s)", ", ", ""},
+	{"update-items", "dml", "UPDATE t SET ", "a = 1", "a = %s", ", ", " WHERE TRUE"},
+	{"columns", "ddl", "CREATE TABLE t (", "c INT64", "c INT64 DEFAULT (%s)", ", ", ") PRIMARY KEY (c)"},
+	{"options", "ddl", "ALTER DATABASE d SET OPTIONS (", "a = 1", "a = %s", ", ", ")"},
+	{"statements", "statements", "", "SELECT 1", "SELECT %s", ";\n", ""},
+}
+
+// DeepExpr: kind 0 = left-deep operator chain of d operands, 1 = d nested parentheses, 2 = d nested array literals.
+func DeepExpr(kind, d int) string {
+	switch kind {
+	case 0:
+		return joinN("1", d, "+")
+	case 1:
+		return strings.Repeat("(", d) + "1" + strings.Repeat(")", d)
+	default:
+		return strings.Repeat("[", d) + "1" + strings.Repeat("]", d)
+	}
+}
+
+// Make builds the list with w elements, the k-th being deep.
+func (f WideDeepFamily) Make(w, k int, deep string) string {
+	var sb strings.Builder
+	sb.WriteString(f.Prefix)
+	for i := 0; i < w; i++ {
+		if i > 0 {
+			sb.WriteString(f.Sep)
+		}
+		if i == k {
+			sb.WriteString(strings.Replace(f.Deep, "%s", deep, 1))
+		} else {
+			sb.WriteString(f.Item)
+		}
+	}
+	sb.WriteString(f.Suffix)
+	return sb.String()
+}
